@@ -9,6 +9,7 @@ for f in MANIFEST.json known_findings.jsonl lean/lakefile.toml; do
   git checkout --ours -- $f 2>/dev/null || true
   git add -- $f 2>/dev/null || true
 done
+for f in $(git diff --name-only --diff-filter=U | grep '^evidence/' || true); do git checkout --theirs -- $f; git add -- $f; done
 if git diff --name-only --diff-filter=U | grep -q .; then echo "CONFLICTS in /verif:"; git diff --name-only --diff-filter=U; exit 1; fi
 python3 tools/gen_lakefile.py >/dev/null
 python3-vt tools/mkmanifest.py
